@@ -13,9 +13,14 @@ package newrelic
 
 import (
 	"encoding/json"
+	"encoding/pem"
 	"fmt"
 	"io/ioutil"
+	"net/http"
+	"net/http/httptest"
 	"os"
+	"path/filepath"
+	"strings"
 	"runtime"
 	"sync"
 	"sync/atomic"
@@ -34,6 +39,12 @@ type c11Scenario struct {
 	Txns      int   `json:"txns"`       // transactions per application before the exit
 	WaitMs    int   `json:"wait_ms"`    // time the timers run before the exit
 	Seed      int64 `json:"seed"`
+	// Transport != "": the REAL collector client (collector.NewClient, TLS, time-out TimeoutMs) against a local
+	// server; once the exit has begun the server treats harvest requests as the mode says:
+	//   "ok" answers 202; "silent" never answers; "stall_body" sends the status line and headers, then nothing;
+	//   "close" drops the connection; "slow_read" reads the request body a few bytes at a time
+	Transport string `json:"transport"`
+	TimeoutMs int    `json:"timeout_ms"`
 }
 
 type c11Final struct {
@@ -110,7 +121,146 @@ func (c *c11Client) Execute(cmd *collector.RpmCmd, cs collector.RpmControls) col
 	return collector.RPMResponse{StatusCode: c.sc.Status, Err: fmt.Errorf("verif: collector answered %d", c.sc.Status)}
 }
 
+// c11Server: a local collector for the real client
+type c11Server struct {
+	sc      *c11Scenario
+	exiting int32
+	runs    int64
+	finals  int64
+	stop    chan struct{}
+}
+
+func (sv *c11Server) ServeHTTP(w http.ResponseWriter, r *http.Request) {
+	method := r.URL.Query().Get("method")
+	exiting := atomic.LoadInt32(&sv.exiting) == 1
+	harvest := method != collector.CommandPreconnect && method != collector.CommandConnect
+	if harvest && exiting && sv.sc.Transport == "slow_read" {
+		buf := make([]byte, 7)
+		for {
+			if _, err := r.Body.Read(buf); err != nil {
+				break
+			}
+			select {
+			case <-sv.stop:
+				return
+			case <-time.After(20 * time.Millisecond):
+			}
+		}
+	} else {
+		ioutil.ReadAll(r.Body)
+	}
+	switch {
+	case method == collector.CommandPreconnect:
+		fmt.Fprintf(w, `{"return_value":{"redirect_host":"%s"}}`, r.Host)
+	case method == collector.CommandConnect:
+		run := atomic.AddInt64(&sv.runs, 1)
+		p := sv.sc.PeriodMs
+		fmt.Fprintf(w, `{"return_value":{"agent_run_id":"r%d","event_harvest_config":{"report_period_ms":%d,`+
+			`"harvest_limits":{"analytic_event_data":100,"custom_event_data":100,"error_event_data":100,"log_event_data":100}},`+
+			`"span_event_harvest_config":{"report_period_ms":%d,"harvest_limit":100}}}`, run, p, p)
+	case !exiting:
+		w.WriteHeader(202)
+	default:
+		atomic.AddInt64(&sv.finals, 1)
+		switch sv.sc.Transport {
+		case "silent":
+			<-sv.stop
+		case "stall_body":
+			w.Header().Set("Content-Length", "100000")
+			w.WriteHeader(200)
+			if f, ok := w.(http.Flusher); ok {
+				f.Flush()
+			}
+			<-sv.stop
+		case "close":
+			if hj, ok := w.(http.Hijacker); ok {
+				if c, _, err := hj.Hijack(); err == nil {
+					c.Close()
+				}
+			}
+		default:
+			w.WriteHeader(202)
+		}
+	}
+}
+
+// c11RunReal: the exit against the real HTTP client
+func c11RunReal(sc *c11Scenario) (obs c11Obs) {
+	sv := &c11Server{sc: sc, stop: make(chan struct{})}
+	srv := httptest.NewTLSServer(sv)
+	defer srv.Close()
+	defer close(sv.stop)
+	dir, _ := ioutil.TempDir("", "verifc11")
+	defer os.RemoveAll(dir)
+	ca := filepath.Join(dir, "ca.pem")
+	ioutil.WriteFile(ca, pem.EncodeToMemory(&pem.Block{Type: "CERTIFICATE", Bytes: srv.Certificate().Raw}), 0600)
+	to := time.Duration(sc.TimeoutMs) * time.Millisecond
+	client, err := collector.NewClient(&collector.ClientConfig{CAFile: ca, MaxParallel: 4, Timeout: to})
+	if err != nil {
+		obs.Note = "NewClient: " + err.Error()
+		return
+	}
+	host := strings.TrimPrefix(srv.URL, "https://")
+	p := NewProcessor(ProcessorConfig{Client: client, AppTimeout: 10 * time.Minute})
+	go p.Run()
+	h := CommandsHandler{Processor: p}
+	runOf := map[int]string{}
+	deadline := time.Now().Add(8 * time.Second)
+	for k := 1; k <= sc.Apps; k++ {
+		for time.Now().Before(deadline) {
+			info := vpAppInfo(int64(k), false)
+			info.RedirectCollector = host
+			rep := p.IncomingAppInfo(nil, info)
+			if rep.State == AppStateConnected {
+				var cr struct {
+					ID string `json:"agent_run_id"`
+				}
+				json.Unmarshal(rep.ConnectReply, &cr)
+				runOf[k] = cr.ID
+				break
+			}
+			time.Sleep(5 * time.Millisecond)
+		}
+	}
+	obs.Connected = len(runOf)
+	if obs.Connected != sc.Apps {
+		obs.Note = "not every application connected (real client)"
+		return
+	}
+	tag := int64(0)
+	for i := 0; i < sc.Txns; i++ {
+		for k := 1; k <= sc.Apps; k++ {
+			tag++
+			op := vpOp{Run: vpRunNum(runOf[k]), Prio: int64(1000 + tag), Items: []vpItem{
+				{Cat: "txnev", Tag: tag, Prio: int64(1000 + tag)}, {Cat: "custom", Tag: tag + 100000, Prio: int64(1000 + tag)},
+				{Cat: "metrics", Tag: tag + 200000, Key: 1, Slot: int(tag) % 140}}}
+			h.HandleMessage(RawMessage{Type: MessageTypeBinary, Bytes: vpBuildTxn(runOf[k], &op)})
+		}
+		time.Sleep(time.Duration(sc.WaitMs/sc.Txns) * time.Millisecond)
+	}
+	// every final request ends at the client's time-out at the latest; they are made one after another
+	// (at most 13 per application); in-flight periodic requests end by the same time-out
+	obs.BoundMs = int64(sc.Apps*13*sc.TimeoutMs) + int64(sc.TimeoutMs) + 3000
+	atomic.StoreInt32(&sv.exiting, 1)
+	t0 := time.Now()
+	done := make(chan struct{})
+	go func() { p.CleanExit(); close(done) }()
+	select {
+	case <-done:
+		obs.Exited = true
+	case <-time.After(time.Duration(obs.BoundMs) * time.Millisecond):
+		buf := make([]byte, 1<<16)
+		obs.Goroutines = string(buf[:stackAll(buf)])
+	}
+	obs.ExitMs = time.Since(t0).Milliseconds()
+	obs.Periodic = int(atomic.LoadInt64(&sv.finals)) // (final requests that reached the server)
+	return
+}
+
 func c11Run(sc *c11Scenario) (obs c11Obs) {
+	if sc.Transport != "" {
+		return c11RunReal(sc)
+	}
 	client := &c11Client{sc: sc, sm: &vpSlotMap{metric: map[int]int64{}, slow: map[int]int64{}}}
 	p := NewProcessor(ProcessorConfig{Client: client, AppTimeout: 10 * time.Minute})
 	go p.Run()
